@@ -65,3 +65,15 @@ def build_opts(spec):
     if spec.get("flow_label") is not None:
         kw["flow_label_tlv"] = FlowLabelTlv(bytes.fromhex(spec["flow_label"]))
     return kw
+
+
+REQUEST_EXTRAS = [
+    {"opts": {"flow_label": ""}}, {"opts": {"flow_label": "0a0b", "fs_requests": 2}}, {"opts": {"overrides": 3}},
+    {"msgs": [["raw", "80818283848586"], ["raw", "fffefdfcfb"]]}, {"msgs": [["orig", 5, 2, 7, 2]], "opts": {"fs_requests": 1, "overrides": 1, "flow_label": "ff"}},
+    {"msgs": [["proxy_put_request", 3, "remote/src.bin", "local/dst.bin"], ["raw", "00"]]},
+]
+
+
+def request_extras(rng, p: float = 0.2) -> dict:
+    """with probability p: cfg keys for the optional parts of a put request (options and messages to user, binary ones too)"""
+    return dict(rng.choice(REQUEST_EXTRAS)) if rng.random() < p else {}
